@@ -34,7 +34,11 @@ struct C05 : Scenario {
         bool many = r.chance(0.2);
         c.steps = many ? r.range(800, 2000) : r.chance(0.3) ? r.range(300, 600) : r.range(50, 250);
         if (many) c.grid = r.range(64, 72);
-        c.interp = 4;    // (quadratic interpolation adds its own distortion of the equilibrium on these grids; the default cubic scheme is used)
+        c.interp = 4;    // (quadratic interpolation adds its own distortion of the equilibrium on these grids; the default cubic scheme is used
+                         //  for the absolute clause; a sixth of the runs use the quadratic scheme, with InterpolateClamped on or off, and are
+                         //  judged by the differential clause only, in which the zero-current twin cancels that distortion)
+        if (r.chance(0.16)) { c.interp = 3; c.clamp = r.chance(0.5); }
+        else if (r.chance(0.15)) c.clamp = true;
         c.deriv = r.pick(std::vector<long>{3, 4});
         c.linearRF = true;
         c.renorm = r.pick(std::vector<long>{0, 0, 20});
@@ -202,7 +206,7 @@ struct C05 : Scenario {
         if (have0 && !(spreadD <= tolD)) o.fail("C05.haissinski", "sigma_E^2 ln(rho/rho0) - (1/dtheta) int W dq varies by " + fmt_g(spreadD, 4) + " over the core, allowed " + fmt_g(tolD, 4) + " (rho0: zero-current equilibrium of the same discretisation; the wake-induced distortion sigma_E^2 ln(rho/rho0) itself varies by " + fmt_g(spreadW, 4) + ")" + ctx);
         // (2) absolute form as the property states it, with the discretisation error of the RF + Fokker-Planck equilibrium allowed for
         double tol = 0.008 + 1.4 * dq * dq + 0.08 * spreadG;
-        if (!(spreadH <= tol)) o.fail("C05.haissinski_absolute", "sigma_E^2 ln rho + q^2/2 - (1/dtheta) int W dq varies by " + fmt_g(spreadH, 4) + " over the core (q=" + fmt_g(q[imin], 4) + " .. " + fmt_g(q[imax], 4) + "), allowed " + fmt_g(tol, 4) + "; without the wake term the variation is " + fmt_g(spreadG, 4) + ctx);
+        if (cfg.interp == 4 && !(spreadH <= tol)) o.fail("C05.haissinski_absolute", "sigma_E^2 ln rho + q^2/2 - (1/dtheta) int W dq varies by " + fmt_g(spreadH, 4) + " over the core (q=" + fmt_g(q[imin], 4) + " .. " + fmt_g(q[imax], 4) + "), allowed " + fmt_g(tol, 4) + "; without the wake term the variation is " + fmt_g(spreadG, 4) + ctx);
         double se = esp[nrec - 1];
         double tau = 0.012 + (cfg.deriv == 3 ? 0.45 : 0.25) * dpp * dpp;
         if (!(std::fabs(se - 1) <= tau)) o.fail("C05.energy_spread", "stationary energy spread " + fmt_g(se, 6) + " instead of 1 +- " + fmt_g(tau, 3) + ctx);
